@@ -160,6 +160,7 @@ SIM_SCENARIO(scen_c11, "c11", "C11", 1500000, 6000) {
     // (at(i) does not throw for i < size(), capacity() >= size()); in the fault modes at() may throw, but a traversal
     // of [begin(), end()) must stay inside allocated memory
     bool growers_done = false;
+    std::vector<std::pair<size_t, const Elem*>> at_addr;     // what at(i) handed out while the vector grew
     int observer = sim::spawn([&] {
         uint64_t x = 88172645463325252ull;
         while (!growers_done) {
@@ -174,12 +175,22 @@ SIM_SCENARIO(scen_c11, "c11", "C11", 1500000, 6000) {
                     sim::probe("at-threw-during-faulty-growth");
                 }
             }
+            // indices at and beyond size() may already be claimed by a growth call in flight: at() either throws or hands out
+            // the element's final address, inside allocated memory (the load below must not fault)
+            static const size_t ahead[] = {0, 1, 7, 33};
+            for (size_t a : ahead) {
+                size_t i = n + a;
+                try { const Elem& e = v->at(i); volatile int r = *(const volatile int*)&e.ready; (void)r; if (at_addr.size() < 4000) at_addr.push_back({i, &e}); sim::probe("at-ahead-of-size-returned"); }
+                catch (std::exception&) { sim::probe("at-ahead-of-size-threw"); }
+            }
             sim::point(sim::K_YIELD, nullptr);
         }
     }, "observer");
     hx::run_fibers(fns);
     growers_done = true;
     sim::join(observer);
+    for (auto& pa : at_addr) if (pa.first < v->size())
+        SIM_CHECK(pa.second == &(*v)[pa.first], "oracle:address-moved", "during growth at(%zu) handed out %p, the element lives at %p", pa.first, (const void*)pa.second, (const void*)&(*v)[pa.first]);
     vf.armed = false;
     if (strict) {
         // returned ranges are pairwise disjoint, contiguous, and tile [prefill, size())
